@@ -1195,7 +1195,14 @@ def c16(tier, seed):
                     # exclude the file but a farther one does, the file is formatted (D37)
                     shadowed = explicit_arg and not _stylua_ignored_single(p, ignore_files)
                     # an explicit path is judged by path_is_stylua_ignored alone (globs play no part there)
-                    sig = "styluaignored-file-processed" + ((":explicit-respect" + (":shadowed-by-nearer-ignore-file" if shadowed else "")) if explicit_arg else (":glob-given" if globs else ""))
+                    # ... unless a directory argument reaches the file too: then a --glob override is what let it through (D34)
+                    via_dir = any(os.path.normpath(a) not in files and (os.path.normpath(a) == "." or p.startswith(os.path.normpath(a) + "/")) for a in args)
+                    if globs and via_dir:
+                        sig = "styluaignored-file-processed:glob-given"
+                    elif explicit_arg:
+                        sig = "styluaignored-file-processed:explicit-respect" + (":shadowed-by-nearer-ignore-file" if shadowed else "")
+                    else:
+                        sig = "styluaignored-file-processed" + (":glob-given" if globs else "")
                     V.append(v("C16", sig, dict(detail, file=p)))
                 if not globs and not (name.endswith(".lua") or name.endswith(".luau")):
                     V.append(v("C16", "non-lua-file-processed", dict(detail, file=p)))
